@@ -255,6 +255,7 @@ def find_closures(m: str):
         if m.startswith('->', k):
             ob = first_at_depth0(m, k, '{')
             body_start, body_end, braced = ob, match_close(m, ob) + 1, True
+            bar1 = ob  # the annotated header replaces `|args| -> T ` as a whole
         elif m[k] == '{':
             body_start, body_end, braced = k, match_close(m, k) + 1, True
         else:
